@@ -1,9 +1,8 @@
 package main
 
 import (
-	"context"
-	"time"
 	"bytes"
+	"context"
 	"encoding/json"
 	"fmt"
 	"os"
@@ -11,6 +10,7 @@ import (
 	"path/filepath"
 	"strings"
 	"syscall"
+	"time"
 
 	"verifharness/evid"
 	"verifharness/gen"
